@@ -249,3 +249,49 @@ HARNESSES = [
              'carbon.routers:FastHashingRouter (getDestinations inherited)'],
     assumptions=['FastHashRing._hash returns arbitrary non-negative ints (mmh3 is not installed; any hash type)']),
 ]
+
+
+# ---- engine S: ring positions lie in [0, 65535] (justifies the domain of `pos`) ---------------------------------------------
+def _range_lemmas(tier):
+  import ast
+  import inspect
+  import textwrap
+  import z3
+  from vp_lib import pysym
+  out = []
+  src = ast.parse(textwrap.dedent(inspect.getsource(hashing.carbonHash)))
+  fold = None
+  for node in ast.walk(src):
+    if isinstance(node, ast.Assign) and any(isinstance(x, ast.RShift) for x in ast.walk(node.value)):
+      fold = node.value
+  if fold is None:
+    return [dict(name='C05 fold translation', verdict='unknown', detail='no shift/xor fold found in carbonHash', queries=0)]
+  big = z3.BitVec('big_hash', 64)
+  it = pysym.Interp(pysym.Clock(z3.RealVal(0)))
+  fr = {'env': {'big_hash': big}, 'active': z3.BoolVal(True), 'returned': z3.BoolVal(False), 'ret': None}
+  try:
+    small = it.eval(fold, fr)
+  except pysym.Unsupported as e:
+    return [dict(name='C05 fold translation', verdict='unknown', detail=repr(e), queries=0)]
+  v, m, dt = pysym.check(z3.Solver, [z3.ULT(big, z3.BitVecVal(2 ** 32, 64))], z3.ULE(small, z3.BitVecVal(65535, 64)), 60000)
+  out.append(dict(name='H1 fnv1a_ch: the folded 32-bit hash lies in [0, 65535] for every 32-bit value', verdict=v, model=m,
+                  solver_time_s=round(dt, 4), queries=1, detail='', witness={'big_hash': 'any value below 2**32'}))
+  # carbon_ch: int(hex[:4], 16) of four hex digits is at most 0xffff -- positional notation, checked for the digits as symbols
+  d = z3.Ints('d0 d1 d2 d3')
+  val = ((d[0] * 16 + d[1]) * 16 + d[2]) * 16 + d[3]
+  v, m, dt = pysym.check(z3.Solver, [z3.And(x >= 0, x <= 15) for x in d], z3.And(val >= 0, val <= 65535), 60000)
+  out.append(dict(name='H2 carbon_ch: four hex digits denote a value in [0, 65535]', verdict=v, model=m, solver_time_s=round(dt, 4),
+                  queries=1, detail='', witness={'digits': 'any four hex digits'}))
+  # and the real function agrees with that reading of the digest on concrete digests (translation check)
+  import hashlib
+  for key in ('a', 'servers.x.cpu', "('10.0.0.1', 'a'):7"):
+    want = int(hashlib.md5(key.encode()).hexdigest()[:4], 16)
+    if hashing.carbonHash(key, 'carbon_ch') != want:
+      out.append(dict(name='H2 digest reading', verdict='error', detail='carbonHash(%r) differs from int(md5[:4],16)' % key, queries=0))
+  return out
+
+
+from vp_lib.api import S  # noqa: E402
+HARNESSES.append(
+  S('C05_hash_range', _range_lemmas, encodes=['carbon.hashing:carbonHash (fnv1a_ch fold translated from the current source; carbon_ch digit reading)'],
+    assumptions=['fnv32a returns a 32-bit unsigned value; md5 hexdigest consists of hex digits']))
